@@ -174,6 +174,9 @@ class Crate:
     def __init__(self, repo):
         self.repo = repo
         self.dump = syn.dump(repo)
+        from .normalise import norm
+        for f_ in self.dump['files'].values():
+            f_['items'] = norm(f_['items'])
         self.errors = list(self.dump.get('errors', []))
         self.files = self.dump['files']
         self.modules = {}
